@@ -204,8 +204,11 @@ def is_depth_guard(P, b, members):
                       calls into the component are dominated by the passing edge."""
     rec_sites = b.call_blocks(lambda d: d in members)
     # closures created here that belong to the component count as recursive sites too
+    # (a closure that is demonstrably invoked at a resolved call site of b — e.g. handed to a spliced `with_depth(|s| ..)`
+    # helper — recurses where it is called, not where it is created)
+    called_here = {t["f"].get("def") for _, t in b.calls()}
     for bi, s in P.block_calls(b).items():
-        if any(x in members and x != b.id for x in s) and bi not in rec_sites:
+        if any(x in members and x != b.id and x not in called_here for x in s) and bi not in rec_sites:
             rec_sites.append(bi)
     if not rec_sites:
         return None
